@@ -26,7 +26,8 @@ TraceDims == /\ l <= Len(Events) /\ Events[l].ev = "TextDims"
              /\ LET P == Parse(FF) IN
                 /\ PairSet(Events[l].times) = {R(P.times[k]) : k \in DOMAIN P.times}
                 /\ PairSet(Events[l].leadtimes) = Elems(P.leads)
-                /\ PairSet(Events[l].ids) = {R(P.ids[k]) : k \in DOMAIN P.ids}
+                /\ IF HasCol(FF, "id") THEN PairSet(Events[l].ids) = {R(P.ids[k]) : k \in DOMAIN P.ids}
+                   ELSE Cardinality(PairSet(Events[l].ids)) = Cardinality(LocationsNoId(FF)) /\ Len(Events[l].ids) = Len(P.ids)   \* the numbers of id-less sites are the reader's own
                 /\ PairSet(Events[l].thresholds) = P.thresholds /\ PairSet(Events[l].quantiles) = P.quantiles /\ PairSet(Events[l].members) = P.members
              /\ l' = l + 1 /\ tid' = tid
 TraceDone == l = Len(Events) + 1 /\ l' = l + 1 /\ tid' = tid /\ PrintT(ToJson([accept |-> Traces[tid].id]))
